@@ -769,6 +769,11 @@ def judge(case, impl, resp):
     model_err = out.get("error") if isinstance(out, dict) else None
     if isinstance(impl, dict) and "__error__" in impl:
         e = impl["__error__"]
+        if not i.get("malformed") and i.get("w") is not None and i.get("a") is not None and len(i["w"]) == len(i["a"]) \
+                and sum(w for a, w in zip(i["a"], i["w"]) if a is not None and w is not None) == 0:
+            # the weights that are left once NaN values / NaN weights are set aside add up to zero (e.g. the only
+            # positive weight sits on a NaN value): the same "zero total weight" input as the malformed stream
+            return [], ([] if model_err == e else [f"impl raises {e}, model gives {str(out)[:80]}"]), None
         if i.get("malformed"):
             # the input is outside the property's quantifier: the error only has to be the modelled one
             return [], ([] if model_err == e else [f"impl raises {e}, model gives {str(out)[:80]}"]), None
